@@ -164,6 +164,27 @@ Theorem C10_equal_sign_label_found_refuted :
 Proof. exact bicycle_line_not_found. Qed.
 Print Assumptions C10_equal_sign_label_found_refuted.
 
+(* Proved part: a line that prints the label followed by exactly " = " is read back as the text after the equal
+   sign up to the end of the line, for every label, indentation >= 2 and value without a line break *)
+Theorem C10_equal_sign_partial :
+  forall name v n,
+  head_not_space name ->
+  all_chars (fun c => negb (Ascii.eqb c NLc)) v = true ->
+  contains (eq_marker name) (v ++ NL) = false ->
+  eq_of_line (eq_marker name) (spaces n ++ eq_marker name ++ v ++ NL) = MR (MStr v) None.
+Proof. exact eq_roundtrip. Qed.
+Print Assumptions C10_equal_sign_partial.
+
+(* ---- rows of the HEATING / COOLING / ELECTRICITY production profiles ----------------------------------------
+   For every number of rows, every row that starts with a blank, has >= 2 blank-free cells separated by blanks
+   and nothing after the last cell: the rows come back in order, cell by cell, none dropped. *)
+Theorem C10_profile_rows :
+  forall (rows : list row),
+  (forall r, In r rows -> prow_ok r = true /\ (2 <= List.length (snd r))%nat) ->
+  data_rows (map render rows) = map (fun r => map parse_number (row_tokens r)) rows.
+Proof. exact data_rows_rendered. Qed.
+Print Assumptions C10_profile_rows.
+
 (* ---- non-vacuity: concrete instances satisfying the hypotheses ---------------------------------------------- *)
 Example C10_ex_roundtrip :
   field_of_line "Well depth" false (render_scalar 6 "Well depth" 1 "-12,345,678.9" (Some "kilometer") NL)
@@ -187,6 +208,17 @@ Example C10_ex_table :
   addons_rows (["a"; "b"; "c"; "d"; "e"] ++ map render [r1; r2])
   = Some [[MInt 1; MFlt 0 (-2); MFlt (-2567) (-2)]; [MInt 2; MFlt 900 (-2); MFlt 12345678 (-2)]].
 Proof. repeat split; vm_compute; reflexivity. Qed.
+
+Example C10_ex_equal_sign :
+  eq_of_line (eq_marker "Reservoir Model") (spaces 4 ++ eq_marker "Reservoir Model" ++ "Annual Percentage Thermal Drawdown Model" ++ NL)
+  = MR (MStr "Annual Percentage Thermal Drawdown Model") None
+  /\ contains (eq_marker "Reservoir Model") ("Annual Percentage Thermal Drawdown Model" ++ NL) = false.
+Proof. split; vm_compute; reflexivity. Qed.
+
+Example C10_ex_profile_rows :
+  let r1 : row := ("  ", [("1", "           "); ("1.0000", "        "); ("-165.34", "")]) in
+  prow_ok r1 = true /\ data_rows (map render [r1]) = [[MInt 1; MFlt 10000 (-4); MFlt (-16534) (-2)]].
+Proof. split; vm_compute; reflexivity. Qed.
 
 Example C10_ex_short_row_shifts :   (* why C10_table asks for rows of equal length: a missing cell moves the rest *)
   addons_rows (["a"; "b"; "c"; "d"; "e"] ++ ["  1   2.0   3.0"; "  2   4.0"])
